@@ -26,7 +26,7 @@ contract(
 
 contract(
     "ufo2ft.util:otRoundIgnoringVariable",
-    props=["C06"],
+    props=["C06", "C18"],
     params={"number": REAL},
     returns=INT,
     ensures={"nearest": "2 * (result - number) <= 1 and 2 * (number - result) < 1"},
